@@ -36,6 +36,24 @@ def zval(rng):
     return "%d,%d" % (rng.choice((1, 2, 5, 10, 50, 75, 99)), rng.randint(-9, 9))
 
 
+def fval(rng):
+    """a frequency for vnadata_set_frequency / vnadata_set_frequency_vector: the container takes ANY
+    value through these two (only vnadata_add_frequency refuses negatives): negative, zero,
+    positive; sequences of them come out unordered and with repeats"""
+    k = rng.random()
+    if k < 0.30:
+        return rng.randint(-9, -1)
+    if k < 0.40:
+        return 0
+    if k < 0.55:
+        return rng.choice((1, 1, 2, 2, 5))          # repeats are likely
+    return rng.randint(1, 9)
+
+
+def fvals(rng, n):
+    return "%d %s" % (max(n, 0), " ".join(str(fval(rng)) for _ in range(max(n, 0))))
+
+
 def idx(rng, n):
     """an index aimed at the case splits: -1, 0, n-1, n, n+1, or anything in range"""
     k = rng.random()
@@ -128,12 +146,11 @@ def random_script(rng, length, maxdim=3, maxfreq=3, convert=True, nobj=NOBJ):
         elif k < 0.30:
             ops.append("%d getfreq %d" % (o, idx(rng, s.f)))
         elif k < 0.33:
-            ops.append("%d setfreq %d %d" % (o, idx(rng, s.f), rng.randint(0, 9)))
+            ops.append("%d setfreq %d %d" % (o, idx(rng, s.f), fval(rng)))
         elif k < 0.35:
             ops.append("%d %s" % (o, rng.choice(("fmin", "fmax", "getfv", "dims", "meta", "hasfz0", "setfvself"))))
         elif k < 0.37:
-            ops.append("%d setfv %s" % (o, vlist(rng, rng.choice((s.f, s.f, s.f + 1, max(s.f - 1, 0))),
-                                                 lambda g: str(g.randint(0, 9)))))
+            ops.append("%d setfv %s" % (o, fvals(rng, rng.choice((s.f, s.f, s.f + 1, max(s.f - 1, 0))))))
         elif k < 0.42:
             ops.append("%d getcell %d %d %d" % (o, idx(rng, s.f), idx(rng, s.r), idx(rng, s.c)))
         elif k < 0.52:
@@ -183,6 +200,8 @@ def random_script(rng, length, maxdim=3, maxfreq=3, convert=True, nobj=NOBJ):
                 resized(src, t, n, n, f)
                 for fi in range(f):
                     ops.append("%d setmat %d %s" % (a, fi, vlist(rng, n * n, val)))
+                if rng.random() < 0.7:
+                    ops.append("%d setfv %s" % (a, fvals(rng, f)))
                 if rng.random() < 0.5:
                     ops.append("%d setz0v %s" % (a, vlist(rng, n, zval)))
                 if rng.random() < 0.5:
@@ -219,7 +238,7 @@ def exhaustive_alphabet(maxdim=2):
     a.append("0 setmat 1 4 2,1 0,3 1,1 4,0")
     a.append("0 setcell 0 0 1 7,7")
     a.append("0 setfromvec 1 0 2 6,1 6,2")
-    a.append("0 setfv 2 3 4")
+    a.append("0 setfv 2 3 -4")
     for p in (0, 1, 2):
         a.append("0 setz0 %d 75,1" % p)
         a.append("0 setfz0 0 %d 10,2" % p)
@@ -251,6 +270,10 @@ def multi_object_script(rng, nobj=NOBJ, maxfreq=2):
     ops.append("%d init %d %d %d %d" % (src, t, n, n, f))
     for fi in range(f):
         ops.append("%d setmat %d %s" % (src, fi, vlist(rng, n * n, val)))
+    if rng.random() < 0.8:
+        ops.append("%d setfv %s" % (src, fvals(rng, f)))
+    else:
+        ops.append("%d setfreq %d %d" % (src, rng.randint(0, f - 1), fval(rng)))
     if rng.random() < 0.5:
         ops.append("%d setz0v %s" % (src, vlist(rng, n, zval)))
     else:
@@ -282,5 +305,5 @@ def multi_object_script(rng, nobj=NOBJ, maxfreq=2):
             ops.append("%d resize 0 3 3 3" % cur)
         cur = nxt
     for o in range(nobj):
-        ops += ["%d dims" % o, "%d meta" % o, "%d getmat 0" % o, "%d hasfz0" % o, "%d getfz0v 0" % o]
+        ops += ["%d dims" % o, "%d meta" % o, "%d getfv" % o, "%d getmat 0" % o, "%d hasfz0" % o, "%d getfz0v 0" % o]
     return ops
